@@ -52,13 +52,18 @@ def mhStep (h : MH Float) (op : MOp Float) : MH Float × String :=
   | .ok h' => (h', "ok")
   | .error e => (h, errTok e)
 
+/-- the materialised ValueTable map as the function the model's operations take -/
+def vtFun (a : Array (Option Nat)) : Nat → Option Nat := fun i => (a[i]?).join
+/-- evaluate the map once at every key the driver can name -/
+def vtFreeze (m : Nat) (f : Nat → Option Nat) : Array (Option Nat) := (Array.range m).map f
+
 structure DState where
   mh : MH Float := MH.init
   dens : Dens Float := Dens.init 0
   diam : Diam Float := Diam.init 0
   ts : TS (List Nat) := TS.init 0
   objs : Array Nat := #[]
-  vt : Nat → Option Nat := fun _ => none
+  vt : Array (Option Nat) := #[]     -- the ValueTable map, materialised after every operation (a chain of closures would re-run every earlier fold)
   vtn : Nat := 0
   dom : Dom Float := ⟨0, 0, 0⟩
   sys : Sys Float := Sys.init 0 1
@@ -244,11 +249,11 @@ def step (s : DState) (toks : List String) : DState × String :=
       (s, s!"{" ".intercalate tabs} objs {" ".intercalate objs}")
   | ["pt.iter", n, full, diag] =>
       (s, " ".intercalate ((iterpairs n.toNat! (full = "1") (diag = "1")).map fun p => s!"{p.1}:{p.2}"))
-  | ["vt.new", n] => ({ s with vt := fun _ => none, vtn := n.toNat! }, "ok")
-  | "vt.set" :: v :: ts => ({ s with vt := vtSet s.vt (nats ts) v.toNat! }, "ok")
-  | ["vt.unset", v] => ({ s with vt := vtSetUnset s.vtn s.vt v.toNat! }, "ok")
+  | ["vt.new", n] => ({ s with vt := Array.replicate (n.toNat! + 8) none, vtn := n.toNat! }, "ok")
+  | "vt.set" :: v :: ts => ({ s with vt := vtFreeze s.vt.size (vtSet (vtFun s.vt) (nats ts) v.toNat!) }, "ok")
+  | ["vt.unset", v] => ({ s with vt := vtFreeze s.vt.size (vtSetUnset s.vtn (vtFun s.vt) v.toNat!) }, "ok")
   | ["vt.obs"] =>
-      (s, s!"{" ".intercalate ((vtIter s.vtn s.vt).map fun p => s!"{p.1}:{match p.2 with | none => "N" | some v => toString v}")} check {vtCheck s.vtn s.vt}")
+      (s, s!"{" ".intercalate ((vtIter s.vtn (vtFun s.vt)).map fun p => s!"{p.1}:{match p.2 with | none => "N" | some v => toString v}")} check {vtCheck s.vtn (vtFun s.vt)}")
   -- ---------------- C13 MatrixArray objects
   | ["ma.reset"] => ({ s with mh := MH.init }, "ok")
   | "ma.new" :: L :: n :: sp :: xs =>
